@@ -244,6 +244,31 @@ Definition returns_agree (api : list apisig) : bool :=
 Definition unwrapped (api : list apisig) (tbl : list wrapper) : list string :=
   map a_name (filter (fun a => negb (opt_is_some (find_wrapper tbl (a_name a)))) api).
 
+(* the public Enforcer methods that SyncedEnforcer deliberately does not offer (calling them on a
+   SyncedEnforcer raises AttributeError: nothing unsynchronised can happen).  A public method that appears in
+   the plain API later and is neither wrapped nor listed here breaks SyncedTie.unwrapped_listed. *)
+Local Open Scope string_scope.
+Definition deliberately_unwrapped : list string := [
+  "configure_logging"; "enable_auto_notify_watcher"; "get_allowed_object_conditions"; "get_named_role_manager";
+  "init_rm_map"; "init_with_adapter"; "init_with_file"; "init_with_model_and_adapter";
+  "load_increment_filtered_policy"; "new_model"; "set_named_role_manager"; "update_filtered_named_policies";
+  "update_filtered_policies"; "update_named_policies"; "update_named_policy"; "update_policies"; "update_policy" ].
+Local Close Scope string_scope.
+Definition unwrapped_listed (api : list apisig) (tbl : list wrapper) : bool :=
+  forallb (fun m => existsb (String.eqb m) deliberately_unwrapped) (unwrapped api tbl).
+
+(* the lock a call of wrapper [m] takes according to the table, and which wrappers count as ONE call of the
+   machine of Part 3: the delegating ones and the inline ones whose whole body holds the write lock (the others
+   — is_auto_loading_running, start/stop_auto_load_policy, _auto_load_policy — touch only the wrapper's own
+   AtomicBool or are loops of wrapped calls) *)
+Definition table_mode (tbl : list wrapper) (m : string) : lockmode :=
+  match find_wrapper tbl m with Some w => w_mode w | None => LNone end.
+Definition callable (tbl : list wrapper) (m : string) : bool :=
+  match find_wrapper tbl m with
+  | Some w => opt_is_some (w_target w) || lockmode_eqb (w_mode w) LW
+  | None => false
+  end.
+
 (* ================================================================== Part 3: the abstract concurrent machine *)
 Definition callid := (nat * nat)%type.     (* (thread, index of the call in that thread's program) *)
 
@@ -291,7 +316,7 @@ Section Machine.
   Inductive phase :=
   | Idle                                     (* between calls *)
   | Pend (c : call)                          (* invoked, waiting for the lock *)
-  | In (c : call) (l : local) (rem : nat).   (* inside: rem micro steps still to do *)
+  | Run (c : call) (l : local) (rem : nat).   (* inside: rem micro steps still to do *)
 
   Record thread := { ph : phase; prog : list call (* calls still to invoke *); ninv : nat (* calls invoked so far *) }.
 
@@ -305,7 +330,7 @@ Section Machine.
 
   (* ---- the readers-writer guard: exactly what C16 proves of the lock (exclusion / readers share) *)
   Definition in_mode (m : lockmode) (th : thread) : bool :=
-    match ph th with In c _ _ => lockmode_eqb (mode c) m | _ => false end.
+    match ph th with Run c _ _ => lockmode_eqb (mode c) m | _ => false end.
   Definition writer_inside (l : list thread) : bool := existsb (in_mode LW) l.
   Definition reader_inside (l : list thread) : bool := existsb (in_mode LR) l.
   Definition may_enter (m : lockmode) (l : list thread) : bool :=
@@ -338,7 +363,7 @@ Section Machine.
             match ph th with
             | Pend c =>
                 if may_enter (mode c) (ths C)
-                then Some (set_th C t {| ph := In c (start c) (len c); prog := prog th; ninv := ninv th |})
+                then Some (set_th C t {| ph := Run c (start c) (len c); prog := prog th; ninv := ninv th |})
                 else None
             | _ => None
             end
@@ -348,10 +373,10 @@ Section Machine.
         match nth_error (ths C) t with
         | Some th =>
             match ph th with
-            | In c l (S m) =>
+            | Run c l (S m) =>
                 let '(l1, s1) := mstep c l (cur C) in
                 Some {| cur := s1;
-                        ths := set_nth t {| ph := In c l1 m; prog := prog th; ninv := ninv th |} (ths C);
+                        ths := set_nth t {| ph := Run c l1 m; prog := prog th; ninv := ninv th |} (ths C);
                         log := log C |}
             | _ => None
             end
@@ -361,7 +386,7 @@ Section Machine.
         match nth_error (ths C) t with
         | Some th =>
             match ph th with
-            | In c l O =>
+            | Run c l O =>
                 if Nat.eqb (ninv th) (S i)
                 then Some {| cur := cur C;
                              ths := set_nth t {| ph := Idle; prog := prog th; ninv := ninv th |} (ths C);
@@ -393,14 +418,39 @@ Section Machine.
     nth_error (nth (fst id) progs []) (snd id).
 
   (* what is assumed of one call: it takes the write lock, or it takes the read lock and none of its micro
-     steps changes the shared (abstract) state *)
+     steps changes the shared (abstract) state, or it takes no lock and its micro steps neither change nor
+     read the shared state (a stateless call: its result is the same whatever the state, dirty or not) *)
   Definition disciplined (c : call) : Prop :=
-    mode c = LW \/ (mode c = LR /\ forall l s, snd (mstep c l s) = s).
+    mode c = LW
+    \/ (mode c = LR /\ forall l s, snd (mstep c l s) = s)
+    \/ (mode c = LNone /\ forall l s s', mstep c l s' = (fst (mstep c l s), s')).
+
+  (* who is inside (between Enter and Exit) *)
+  Definition inside (C : config) (id : callid) : Prop :=
+    exists th c l rem, nth_error (ths C) (fst id) = Some th /\ ph th = Run c l rem /\ ninv th = S (snd id).
+
+  (* ---- THE SPECIFICATION of the first sentence of the property.
+     [ord] — calls with their ids — is a linearisation of the trace [tr] that led from (init s0 progs) to C:
+     a one-at-a-time order of exactly the calls that have returned or are inside, which respects real-time
+     precedence and program order, and whose sequential run by [seq_run] (the plain enforcer, one call at a
+     time, from the same initial state) returns for every completed call exactly the value it returned in the
+     concurrent run and ends — whenever no writer is in the middle of its call — in exactly the live state *)
+  Definition linearization (s0 : state) (progs : list (list call)) (tr : list event) (C : config)
+             (ord : list (callid * call)) : Prop :=
+    NoDup (map fst ord)
+    /\ (forall id, List.In id (map fst ord) <-> List.In id (completed tr) \/ inside C id)
+    /\ (forall id c, List.In (id, c) ord -> call_of progs id = Some c)
+    /\ (forall a b, List.In a (map fst ord) -> List.In b (map fst ord) -> precedes tr a b -> before (map fst ord) a b)
+    /\ (forall t i j, i < j -> List.In (t, j) (map fst ord) -> before (map fst ord) (t, i) (t, j))
+    /\ map e_id (log C) = completed tr
+    /\ (forall e, List.In e (log C) ->
+          List.In (e_id e, e_ret e) (combine (map fst ord) (snd (seq_run s0 (map snd ord)))))
+    /\ (writer_inside (ths C) = false -> cur C = fst (seq_run s0 (map snd ord))).
 End Machine.
 
 Arguments Idle {call local}.
 Arguments Pend {call local} c.
-Arguments In {call local} c l rem.
+Arguments Run {call local} c l rem.
 Arguments ph {call local} t.
 Arguments prog {call local} t.
 Arguments ninv {call local} t.
@@ -426,6 +476,8 @@ Arguments exec_upto {state call local ret} mode start mstep len result C tr n.
 Arguments init {state call local ret} s0 progs.
 Arguments call_of {call} progs id.
 Arguments disciplined {state call local} mode mstep c.
+Arguments inside {state call local ret} C id.
+Arguments linearization {state call local ret} mode start mstep len result s0 progs tr C ord.
 
 (* ================================================================== Part 4: the free instance
    state = the writers so far, most recent first; 0 = the DIRTY marker a writer leaves while it works.
@@ -442,7 +494,10 @@ Definition fmstep (c : fcall) (l : option (list N)) (s : list N) : option (list 
        | None => (Some s, 0 :: s)
        | Some x => (Some x, fc_tag c :: tl s)
        end
-  else (Some s, s).
+  else match fc_mode c with
+       | LNone => (Some [], s)       (* a stateless call does not even read the state *)
+       | _ => (Some s, s)
+       end.
 Definition flen (c : fcall) : nat := if fc_mut c then 2%nat else 1%nat.
 Definition fresult (_ : fcall) (l : option (list N)) : list N := match l with Some x => x | None => [] end.
 
@@ -548,7 +603,8 @@ Definition oracle_C17 (tag : N) (v : val) : val :=
   (* 2: the regenerated API with the hand classification; coverage verdicts; unwrapped methods *)
   | 2, _ => VL [ vbool (api_classified enforcer_api); vbool (table_exact enforcer_api);
                  vbool (returns_agree enforcer_api); vlist vapi enforcer_api;
-                 vlist vstring (unwrapped enforcer_api synced_table) ]
+                 vlist vstring (unwrapped enforcer_api synced_table);
+                 vbool (unwrapped_listed enforcer_api synced_table) ]
   (* 3: monitor.  [names per thread; observed events [kind; t; i] with kind 0 invoke / 1 inner method entered /
         2 exited] -> [index of the first event the machine refuses under the REQUIRED modes, if any;
         the completed calls in the order the linearizability theorem constructs (completion order), each with
